@@ -98,7 +98,19 @@ def check(run: Run, ctx) -> None:
     cases = []
     for i in range(ctx.budget(24, 240)):
         r = rng(f"C02:{i}")
-        cases.append({"id": f"c02-{i}", "doc": gs.gen_spec(r, gs.Opts(mainstream=True, max_ops=1, max_schemas=6, unions=(i % 4 == 0), colliding_props=(i % 3 == 0), allof_variants=(i % 2 == 0)))})
+        doc = gs.gen_spec(r, gs.Opts(mainstream=True, max_ops=1, max_schemas=6, unions=(i % 4 == 0), colliding_props=(i % 3 == 0), allof_variants=(i % 2 == 0)))
+        if i % 2 == 1:
+            # named object schemas that declare properties NEXT TO anyOf / oneOf (the "at least one of" idiom; shared properties of a union):
+            # they are objects with those properties, whatever else the composition says
+            sch = doc["components"]["schemas"]
+            sch["ContactPoint"] = {"type": "object", "required": ["note"], "properties": {"email": {"type": "string"}, "phone": {"type": "string"}, "note": {"type": "string"}},
+                                   "anyOf": [{"required": ["email"]}, {"required": ["phone"]}]}
+            if r.random() < 0.5:
+                sch["RoundShape"] = {"type": "object", "properties": {"radius": {"type": "integer"}}}
+                sch["SquareShape"] = {"type": "object", "properties": {"side": {"type": "integer"}}}
+                sch["ShapeBox"] = {"type": "object", "required": ["label"], "properties": {"label": {"type": "string"}, "sides": {"type": "integer"}},
+                                   "oneOf": [{"$ref": "#/components/schemas/RoundShape"}, {"$ref": "#/components/schemas/SquareShape"}]}
+        cases.append({"id": f"c02-{i}", "doc": doc})
     results = e2e.run_cases("vf.props.C02:case_fn", cases)
     for case, res in zip(cases, results):
         if "infra_error" in res:
